@@ -18,7 +18,9 @@ RULE_C07 = ('operation scripts over up to 4 registers holding req_sketch<int64_t
             'sketch is iterated in every case) and queried: rank grid (get_rank sums the compactors), dyadic quantile grid incl. 0 and 1 and out-of-range ranks, '
             'CDF/PMF with valid, unsorted, duplicate and NaN split points, sorted-view listing (CDF and rank go through different code and must agree); queries are '
             'also interleaved with updates (they sort level 0 in place); the float32 section-size schedule of the model is compared with the machine arithmetic '
-            'for every section size 4..~300. non-trivial = at least one compaction or one merge')
+            'for every section size 4..~300; deterministic merges into compactors holding 0, 1, 2, section_size-1, section_size, section_size+1 items at level 0 '
+            '(operand sorted / unsorted, values on both sides of the receiver\'s items, with ties) and 0, 2, 3, 4, 5 items above level 0 (a compactor above level 0 never '
+            'holds exactly one item), and merges that land exactly on num_retained == max_nom_size. non-trivial = at least one compaction or one merge')
 RULE_C08 = ('exhaustive enumeration on the implementation of ALL outcomes of the internal FRESH coin flips for short histories (updates and merges over registers, '
             'both modes; k in {4,6}; m <= 8 coins quick, <= 13 thorough) through scripted coins: for every query point the sum over the 2^m outcomes of the rank '
             'numerators must equal 2^m * true rank, every outcome must draw exactly m coins (enumeration, not proof; the theorems are in Properties_C08_req). '
@@ -198,6 +200,42 @@ def gen_c07(rng, tier):
     # the float32 section-size schedule, every section size the constructor can produce and a few larger ones
     ks = list(range(4, 256, 2)) + [300, 1000, 4096, 65534]
     cases.append(dict(id='req_sched', ops=[[20, k] for k in ks], tags=['float32-schedule']))
+    # merges into compactors of every small size (seed C07-2: req_compactor::merge must inplace_merge also when the receiving
+    # compactor holds exactly ONE item).  Level 0: receiver with 0, 1, 2, section_size - 1, section_size, section_size + 1
+    # items; operand sorted (level 0 sorted by a query) or unsorted, with values on BOTH sides of the receiver's items.
+    # Higher levels: a compactor above level 0 never holds exactly one item (a compaction promotes >= 2), so the sizes are
+    # 0 (levels added by merge) and section_size/2 = 2, 3, 4, 5 (top level right after the first compaction, k = 4, 6, 8, 10).
+    di = 0
+    for h in (0, 1):
+        for k in (4, 6):
+            for na in (0, 1, 2, k - 1, k, k + 1):
+                for osorted in (0, 1):
+                    kind = di % 3; di += 1
+                    av = [100 + 20 * j for j in range(na)]                      # receiver: 100, 120, ...
+                    bv = [130, 10, 101, 99, 500, 100][:rng.choice([2, 4, 6])]   # operand: unsorted, on both sides, with a tie
+                    ops = [[99, 1000 + di], [1, 0, kind, k, h], [1, 1, kind, k, h]] + [[2, 0, x] for x in av] + [[2, 1, x] for x in bv]
+                    if osorted:
+                        ops.append([6, 1, 0])                                       # get_rank sorts level 0 of the operand
+                    if na and di % 2:
+                        ops.append([6, 0, 0])                                       # receiver flagged sorted as well
+                    ops += [[4, 0, 1, di % 2]]
+                    ops += query_block(rng, 0, kind, av + bv, thorough)
+                    cases.append(dict(id='reqsmall%d' % di, ops=ops, tags=['merge', 'merge-small-receiver', 'recv=%d' % na]))
+        for k in (4, 6, 8, 10):
+            for shape in ('est<-est', 'tiny<-est', 'est<-tiny', 'empty<-est'):
+                kind = di % 3; di += 1
+                cap = 6 * k
+                ev = [2 * ((7 * j) % cap) for j in range(cap)]                  # even values, scrambled: exactly one compaction
+                od = [2 * ((5 * j) % cap) + 1 for j in range(cap)]              # odd values interleaving with them
+                tiny = [cap + 1, -3][:1 + di % 2]
+                if shape == 'est<-est': av, bv = ev, od
+                elif shape == 'tiny<-est': av, bv = tiny, od
+                elif shape == 'est<-tiny': av, bv = ev, tiny
+                else: av, bv = [], od
+                ops = [[99, 2000 + di], [1, 0, kind, k, h], [1, 1, kind, k, h]] + [[2, 0, x] for x in av] + [[2, 1, x] for x in bv]
+                ops += [[5, 0], [5, 1], [4, 0, 1, 0]]
+                ops += query_block(rng, 0, kind, av + bv, thorough)
+                cases.append(dict(id='reqtop%d' % di, ops=ops, tags=['merge', 'merge-small-receiver', 'compaction', shape]))
     # merges after which num_retained == max_nom_size EXACTLY (the boundary of "if (num_retained_ >= max_nom_size_) compress()");
     # a sketch left uncompressed there never compresses again, because update() tests equality
     for ci in range(6 if not thorough else 40):
@@ -640,8 +678,14 @@ def oracle_c08(case, irecs, mrecs):
                 if R == [-1] or len(R) < 2:
                     return fails
                 key = (i - a); x = ops[i][2]
-                # every history ends with all registers merged into the queried one: the true rank is over all updates
-                allv = [op[2] for op in body if op[0] == 2]
+                # the true rank: over everything that flowed into the queried register (a merge adds the whole stream of
+                # its operand, which may already contain items of the target: the histories are merge DAGs)
+                logs = {}
+                for op in ops[a:i]:
+                    if op[0] == 1: logs[op[1]] = []
+                    elif op[0] == 2: logs.setdefault(op[1], []).append(op[2])
+                    elif op[0] == 4 and op[1] != op[2]: logs.setdefault(op[1], []).extend(list(logs.get(op[2], [])))
+                allv = logs.get(ops[i][1], [])
                 ti = sum(1 for v in allv if v <= x); te = sum(1 for v in allv if v < x)
                 if S and (S[0] != ti or S[1] != te):
                     fails.append(dict(sig='req_spec_truth', what='model ground truth disagrees with the script', op_index=i)); return fails
@@ -706,6 +750,9 @@ MANIFEST_C08 = dict(
 #   M17 the constructor coin fix reverted (coin_(false))                                                  [C08: req_rank_biased]
 #   M18 req_sketch::merge: compress only when num_retained_ > max_nom_size_ (first survived; caught since the generator
 #       builds merges that land exactly on num_retained == max_nom_size: cases reqexact*)
+#   S1  independent seed C07-2: req_compactor::merge guards the final std::inplace_merge with num_items_ > 1 instead of > 0
+#       (first MISSED: no case merged into a compactor holding exactly one item; CAUGHT since the reqsmall*/reqtop* cases,
+#       sig req_exact_quantile / req_exact_rank / view mismatch)
 # Harmless rewrites confirmed NOT reported (exit 0): H1 append() growth factor 2*capacity+7; H2 compress() recomputes
 #   max_nom_size_ with update_max_nom_size() instead of adding the delta; H3 std::stable_sort instead of std::sort;
 #   H4 update(): ++n_ before ++num_retained_ and the comparison written the other way round; H5 ensure_space() grows more.
